@@ -320,8 +320,11 @@ def gen_guard_calls(rng):
     stmts = [{"target": "tmpv", "rhs": plain(), "cond": None}]
     for k in range(rng.randint(2, 6)):
         r = rng.random()
-        if r < 0.3:
+        if r < 0.2:
             cond = None
+        elif r < 0.4:
+            # a guard without a call, from a small pool: several statements of a chain carry the SAME guard
+            cond = ["cmp", "<", ["var", GC_VARS[0]], ["num", rng.choice([100, 100, 4])]]
         elif r < 0.6:
             cond = ["cmp", rng.choice([">", "<"]), call("<func>c"), ["num", rng.choice([0, 0.5, -0.5])]]
         elif r < 0.8:
@@ -333,6 +336,8 @@ def gen_guard_calls(rng):
         rhs = plain() if rr < 0.5 else (["+", plain(), call("<func>f")] if rr < 0.8 else ["+", plain(), ["var", "tmpv"]])
         stmts.append({"target": rng.choice(GC_VARS), "rhs": rhs, "cond": cond})
     return {"guard_calls": True, "stmts": stmts, "t0": 0.0, "dt0": 0.5,
+            # (the chain's order is expressed through Nop statements: s1 <- n0 <- s0 instead of s1 <- s0)
+            "nop_links": rng.random() < 0.5,
             "state": {"a": rng.choice([1.0, 2.0, -1.0]), "b": rng.choice([0.5, 3.0]), "c": rng.choice([-2.0, 1.5])},
             "run": {"max_steps": rng.randint(2, 3)}, "event_cap": 40}
 
@@ -373,12 +378,18 @@ def gc_reference(case, fault=None):
 
 def check_guard_calls(case, rec):
     from dagrt.codegen import PythonCodeGenerator
-    from dagrt.language import Assign, DAGCode, ExecutionPhase
+    from dagrt.language import Assign, DAGCode, ExecutionPhase, Nop
     from vf.sexpr import to_pym
     stmts = []
+    if case.get("nop_links"):
+        rec.count("guard_call_programs_ordered_through_nop_statements")
     for k, st in enumerate(case["stmts"]):
+        deps = [f"s{k - 1}"] if k else []
+        if k and case.get("nop_links"):
+            stmts.append(Nop(id=f"n{k - 1}", depends_on=frozenset(deps), condition=True))
+            deps = [f"n{k - 1}"]
         stmts.append(Assign(st["target"], (), to_pym(st["rhs"]), id=f"s{k}",
-                            depends_on=frozenset([f"s{k - 1}"] if k else []),
+                            depends_on=frozenset(deps),
                             condition=True if st["cond"] is None else to_pym(st["cond"])))
     dag = DAGCode({"main": ExecutionPhase("main", "main", frozenset(stmts))}, "main")
     cg = PythonCodeGenerator(class_name="M")
